@@ -45,7 +45,12 @@ def rules(model: Model, tier: str) -> List[RuleResult]:
     from .c10 import _order, setparams_structure
     _order(model, N)
     setparams_structure(model, N)
-    return [R6, S, D, U, I, G, N]
+    from ..rules import substitution as _subst
+    K = RuleResult(PROP, "SUB-K", "parameter de-duplication is keyed on object identity", min_instances=1)
+    M = RuleResult(PROP, "SUB-M", "every alias of a unique parameter receives the new tensor; nothing is skipped", min_instances=3)
+    _subst.unique_key_identity(model, K)
+    _subst.unique_fill(model, M)
+    return [R6, S, D, U, I, G, N, K, M]
 
 
 # ------------------------------------------------------------------------------------------------- S
@@ -348,30 +353,177 @@ def _pair_relation(e: ast.AST) -> Optional[str]:
     return None
 
 
+class _Unsupported(Exception):
+    pass
+
+
+class _Ret(Exception):
+    def __init__(self, v):
+        self.v = v
+
+
+class _Brk(Exception):
+    pass
+
+
+class _Cont(Exception):
+    pass
+
+
+def _ident_table(fnode: ast.FunctionDef, maxn: int = 3):
+    """Truth table of a two-list identity predicate over the finite abstraction `pair k is the same object / is not`:
+    the body is evaluated abstractly on lists of identity tokens for every length <= maxn and every same/different
+    pattern.  Only loops over the two lists, identity tests, boolean structure and constant returns are interpreted;
+    anything else is unsupported (undecided).  Returns {pattern: bool}."""
+    import itertools
+    a = fnode.args
+    ps = [x.arg for x in a.posonlyargs + a.args]
+    if len(ps) != 2:
+        raise _Unsupported("not a two-list predicate")
+
+    def ev(e, env):
+        if isinstance(e, ast.Constant):
+            return e.value
+        if isinstance(e, ast.Name):
+            if e.id in env:
+                return env[e.id]
+            raise _Unsupported("name %s" % e.id)
+        if isinstance(e, ast.Tuple):
+            return tuple(ev(x, env) for x in e.elts)
+        if isinstance(e, ast.UnaryOp) and isinstance(e.op, ast.Not):
+            return not ev(e.operand, env)
+        if isinstance(e, ast.BoolOp):
+            if isinstance(e.op, ast.And):
+                r = True
+                for v in e.values:
+                    r = ev(v, env)
+                    if not r:
+                        return r
+                return r
+            r = False
+            for v in e.values:
+                r = ev(v, env)
+                if r:
+                    return r
+            return r
+        if isinstance(e, ast.Compare) and len(e.ops) == 1:
+            l, r = ev(e.left, env), ev(e.comparators[0], env)
+            op = e.ops[0]
+            if isinstance(op, (ast.Is, ast.Eq)):
+                return l == r
+            if isinstance(op, (ast.IsNot, ast.NotEq)):
+                return l != r
+            if isinstance(l, int) and isinstance(r, int):
+                return {ast.Lt: l < r, ast.LtE: l <= r, ast.Gt: l > r, ast.GtE: l >= r}.get(type(op))
+            raise _Unsupported(ast.unparse(e))
+        if isinstance(e, ast.Subscript):
+            v, i = ev(e.value, env), ev(e.slice, env)
+            if isinstance(v, (list, tuple)) and isinstance(i, int):
+                return v[i]
+            raise _Unsupported(ast.unparse(e))
+        if isinstance(e, ast.BinOp) and isinstance(e.op, (ast.Add, ast.Sub)):
+            l, r = ev(e.left, env), ev(e.right, env)
+            if isinstance(l, int) and isinstance(r, int):
+                return l + r if isinstance(e.op, ast.Add) else l - r
+            raise _Unsupported(ast.unparse(e))
+        if isinstance(e, (ast.GeneratorExp, ast.ListComp)) and len(e.generators) == 1:
+            g = e.generators[0]
+            out = []
+            for item in ev(g.iter, env):
+                env2 = dict(env)
+                bind(g.target, item, env2)
+                if all(ev(c, env2) for c in g.ifs):
+                    out.append(ev(e.elt, env2))
+            return out
+        if isinstance(e, ast.Call) and isinstance(e.func, ast.Name) and not e.keywords:
+            fn = e.func.id
+            args = [ev(x, env) for x in e.args]
+            if fn == "id" and len(args) == 1:
+                return ("id",) + tuple(args[0]) if isinstance(args[0], tuple) else args[0]
+            if fn == "len" and len(args) == 1:
+                return len(args[0])
+            if fn == "zip":
+                return list(zip(*args))
+            if fn == "range":
+                return list(range(*args))
+            if fn == "enumerate" and len(args) == 1:
+                return list(enumerate(args[0]))
+            if fn in ("all", "any") and len(args) == 1:
+                return all(args[0]) if fn == "all" else any(args[0])
+            if fn in ("list", "tuple") and len(args) == 1:
+                return list(args[0])
+            if fn == "bool" and len(args) == 1:
+                return bool(args[0])
+        raise _Unsupported(ast.unparse(e)[:60])
+
+    def bind(t, v, env):
+        if isinstance(t, ast.Name):
+            env[t.id] = v
+        elif isinstance(t, (ast.Tuple, ast.List)) and isinstance(v, (tuple, list)) and len(t.elts) == len(v):
+            for tt, vv in zip(t.elts, v):
+                bind(tt, vv, env)
+        else:
+            raise _Unsupported("target %s" % ast.unparse(t))
+
+    def run(stmts, env):
+        for s_ in stmts:
+            if isinstance(s_, ast.Expr) and isinstance(s_.value, ast.Constant):
+                continue
+            if isinstance(s_, ast.Pass):
+                continue
+            if isinstance(s_, ast.Return):
+                raise _Ret(ev(s_.value, env) if s_.value is not None else None)
+            if isinstance(s_, ast.Assign) and len(s_.targets) == 1:
+                bind(s_.targets[0], ev(s_.value, env), env)
+                continue
+            if isinstance(s_, ast.If):
+                run(s_.body if ev(s_.test, env) else s_.orelse, env)
+                continue
+            if isinstance(s_, ast.For):
+                broke = False
+                for item in ev(s_.iter, env):
+                    bind(s_.target, item, env)
+                    try:
+                        run(s_.body, env)
+                    except _Brk:
+                        broke = True
+                        break
+                    except _Cont:
+                        continue
+                if not broke:
+                    run(s_.orelse, env)
+                continue
+            if isinstance(s_, ast.Break):
+                raise _Brk()
+            if isinstance(s_, ast.Continue):
+                raise _Cont()
+            raise _Unsupported("statement %s" % type(s_).__name__)
+
+    table = {}
+    for n in range(maxn + 1):
+        for pat in itertools.product((True, False), repeat=n):
+            l1 = [("o", k, "a") for k in range(n)]
+            l2 = [("o", k, "a") if pat[k] else ("o", k, "b") for k in range(n)]
+            try:
+                run(fnode.body, {ps[0]: l1, ps[1]: l2})
+                table[pat] = None
+            except _Ret as r:
+                table[pat] = r.v
+    return table
+
+
 def _identical(model: Model, I: RuleResult):
     f = model.func(PF, "_check_identical_objs")
-    body = [s for s in f.node.body if not (isinstance(s, ast.Expr) and isinstance(s.value, ast.Constant))]
-    verdict = None
-    # form 1: for a, b in zip(..): if <diff>: return False ; return True
-    if len(body) == 2 and isinstance(body[0], ast.For) and isinstance(body[1], ast.Return):
-        lp = body[0]
-        if len(lp.body) == 1 and isinstance(lp.body[0], ast.If) and len(lp.body[0].body) == 1 and isinstance(lp.body[0].body[0], ast.Return):
-            rel = _pair_relation(lp.body[0].test)
-            inner = lp.body[0].body[0].value
-            final = body[1].value
-            if rel and isinstance(inner, ast.Constant) and isinstance(final, ast.Constant):
-                if rel == "diff" and inner.value is False and final.value is True:
-                    verdict = "forall-same"
-                elif rel == "same" and inner.value is True and final.value is False:
-                    verdict = "exists-same"
-                elif rel == "same" and inner.value is False and final.value is True:
-                    verdict = "forall-diff"
-                elif rel == "diff" and inner.value is True and final.value is False:
-                    verdict = "exists-diff"
-    elif len(body) == 1 and isinstance(body[0], ast.Return):
-        verdict = _quantifier(body[0].value)
-    if verdict is None:
-        raise AnalysisError("_check_identical_objs: body is not in a recognised quantifier form")
+    try:
+        table = _ident_table(f.node)
+    except _Unsupported as e:
+        raise AnalysisError("_check_identical_objs: body is not in an interpretable form (%s)" % e)
+    wrong = [pat for pat, v in sorted(table.items(), key=lambda kv: (len(kv[0]), kv[0])) if bool(v) != all(pat) or not isinstance(v, bool)]
+    if not wrong:
+        verdict = "forall-same"
+    else:
+        w = wrong[0]
+        verdict = "returns %r for the pattern %s" % (table[w], ["same" if x else "different" for x in w])
     what = "_check_identical_objs computes `%s`" % verdict
     if verdict == "forall-same":
         I.ok(f.fq, what + " (skip the installation only if every tensor is already the installed object)")
